@@ -99,6 +99,48 @@ def _cstr(lit):
     return out
 
 
+def _format_item_step(pp, name):
+    """The per-directive item step of janet_formatbv / janet_buffer_format (pp.c):
+           char form[MAX_FORMAT], item[SIZE];  int nb = 0;  …  nb = snprintf(item, BOUND, form, …);  …
+           if (nb >= MAX_ITEM) janet_panic("format buffer overflow");
+           if (nb > 0) janet_buffer_push_bytes(b, (uint8_t *) item, nb);
+       -> (SIZE macro, BOUND macro, the macro nb is compared with, True for `>=` / False for `>`).  The merged form
+           if (nb > 0) { if (nb OP MAX_ITEM) janet_panic(…); janet_buffer_push_bytes(…); }
+       is the same computation and is accepted too; the operator is reported, not judged, here."""
+    body = func_body(pp, name)
+    buf = re.escape(_param_names(pp, name)[0])
+    md = _need(re.search(r"char\s+\w+\s*\[\s*MAX_FORMAT\s*\]\s*,\s*(?P<item>\w+)\s*\[\s*(?P<size>\w+)\s*\]\s*;"
+                         r"\s*char\s+\w+\s*\[\s*3\s*\]\s*,\s*\w+\s*\[\s*3\s*\]\s*;\s*int\s+(?P<nb>\w+)\s*=\s*0\s*;", body),
+               "the declarations `char form[MAX_FORMAT], item[…]; … int nb = 0;` in %s" % name)
+    item, nb = re.escape(md.group("item")), re.escape(md.group("nb"))
+    calls = re.findall(r"(\w+)\s*=\s*snprintf\s*\(\s*(\w+)\s*,\s*([^,]+?)\s*,", body)
+    if len(calls) < 5:
+        raise ExtractError("C17: fewer than 5 snprintf calls in %s" % name)
+    bounds = set()
+    for lhs, dst, bound in calls:
+        if lhs != md.group("nb") or dst != md.group("item"):
+            raise ExtractError("C17: a snprintf call in %s is not `nb = snprintf(item, …)`" % name)
+        bounds.add(bound)
+    if len(bounds) != 1 or not re.fullmatch(r"\w+", list(bounds)[0]):
+        raise ExtractError("C17: the snprintf calls in %s do not share one size macro: %s" % (name, sorted(bounds)))
+    if len(re.findall(r"\b%s\s*[-+*/|&^]?=[^=]" % nb, body)) != len(calls) + 1:
+        raise ExtractError("C17: `nb` is assigned somewhere else than by the snprintf calls in %s" % name)
+    panic = r"\{?\s*janet_panic\s*\(\s*\"format buffer overflow\"\s*\)\s*;\s*\}?"
+    push = r"janet_buffer_push_bytes\s*\(\s*%s\s*,\s*\(\s*uint8_t\s*\*\s*\)\s*%s\s*,\s*%s\s*\)\s*;" % (buf, item, nb)
+    test = r"if\s*\(\s*%s\s*(?P<op>>=|>)\s*(?P<lim>\w+)\s*\)\s*" % nb
+    pos = r"if\s*\(\s*%s\s*>\s*0\s*\)\s*" % nb
+    tail = r"\s*\}\s*\}\s*\}\s*$"          # end of the directive branch, of the loop, of the function
+    m = re.search(test + panic + r"\s*" + pos + r"\{?\s*" + push + r"\s*\}?" + tail, body) or \
+        re.search(pos + r"\{\s*" + test + panic + r"\s*" + push + r"\s*\}" + tail, body)
+    _need(m, "the overflow test and the push that follow the conversion switch in %s" % name)
+    return md.group("size"), list(bounds)[0], m.group("lim"), m.group("op") == ">="
+
+
+def _define_int(src, name):
+    m = _need(re.search(r"^[ \t]*#[ \t]*define[ \t]+%s[ \t]+(\d+)[ \t]*$" % re.escape(name), src, re.M), "#define %s <integer>" % name)
+    return int(m.group(1))
+
+
 def extract(tree):
     capi = strip_comments(read(tree, "src/core/capi.c"))
     string = strip_comments(read(tree, "src/core/string.c"))
@@ -177,6 +219,14 @@ def extract(tree):
     d["rangePostAssert"] = bool(re.search(r"janet_assert\s*\(\s*%(start)s\s*\+\s*%(ic)s\s*\*\s*%(step)s" % nm, rg))
     d["rangeBump"] = bool(re.search(r"while\s*\(\s*%(ic)s\s*<\s*INT32_MAX\s*&&\s*%(start)s\s*\+\s*%(ic)s\s*\*\s*%(step)s\s*<\s*%(stop)s\s*\)\s*%(ic)s\+\+\s*;" % nm, rg)
                           and re.search(r"while\s*\(\s*%(ic)s\s*<\s*INT32_MAX\s*&&\s*%(start)s\s*\+\s*%(ic)s\s*\*\s*%(step)s\s*>\s*%(stop)s\s*\)\s*%(ic)s\+\+\s*;" % nm, rg))
+    # pp.c: the per-directive item step of the two printf-style formatters (mirror: Lib/FormatC.lean `itemStep`)
+    pp = strip_comments(read(tree, "src/core/pp.c"))
+    for fn, key in (("janet_formatbv", "formatbv"), ("janet_buffer_format", "bufferFormat")):
+        size, bound, lim, ge = _format_item_step(pp, fn)
+        d[key + "ItemSize"] = _define_int(pp, size)
+        d[key + "SnprintfBound"] = _define_int(pp, bound)
+        d[key + "OverflowLimit"] = _define_int(pp, lim)
+        d[key + "OverflowGe"] = ge
     return d
 
 
@@ -211,7 +261,16 @@ def render(tree):
          "abbrev rangePostAssert : Bool := %s" % b(d["rangePostAssert"]),
          "/-- corelib.c range: the count is corrected upwards while `start + int_count * step` is still before `stop` -/",
          "abbrev rangeBump : Bool := %s" % b(d["rangeBump"]),
-         "", "end JanetModel.Gen.Lib", ""]
+         ]
+    for key, fn in (("formatbv", "janet_formatbv"), ("bufferFormat", "janet_buffer_format")):
+        L += ["/-- pp.c %s: `char item[%d]` -/" % (fn, d[key + "ItemSize"]),
+              "abbrev %sItemSize : Nat := %d" % (key, d[key + "ItemSize"]),
+              "/-- pp.c %s: every conversion is `nb = snprintf(item, %d, form, …)` -/" % (fn, d[key + "SnprintfBound"]),
+              "abbrev %sSnprintfBound : Nat := %d" % (key, d[key + "SnprintfBound"]),
+              "/-- pp.c %s: \"format buffer overflow\" is raised when `nb >= LIMIT` (OverflowGe = true) or `nb > LIMIT` (false) -/" % fn,
+              "abbrev %sOverflowLimit : Nat := %d" % (key, d[key + "OverflowLimit"]),
+              "abbrev %sOverflowGe : Bool := %s" % (key, b(d[key + "OverflowGe"]))]
+    L += ["", "end JanetModel.Gen.Lib", ""]
     return "\n".join(L)
 
 
